@@ -121,6 +121,7 @@ type Exec struct {
 	envInputs    int
 	hashApps     []hashApp
 	known        map[*Term]bool
+	jsonBlobs    []jsonBlob
 }
 
 func (e *Exec) unsupported(msg string) {
@@ -560,6 +561,13 @@ func (e *Exec) constValue(c *ssa.Const) Value {
 func (e *Exec) globalLoc(g *ssa.Global) *Loc {
 	if l, ok := e.globals[g]; ok {
 		return l
+	}
+	// a package that was not loaded from source has no init body: its variables would silently read
+	// as zero values (e.g. a nil sentinel error) — refuse instead
+	if g.Pkg != nil {
+		if ini := g.Pkg.Func("init"); ini == nil || ini.Blocks == nil {
+			e.unsupported("read of package-level variable " + g.String() + ": list its package in check.json packages/std")
+		}
 	}
 	// run the owning package's init first (lazily)
 	if g.Pkg != nil {
